@@ -16,6 +16,18 @@ package vgirpc
 //@ func (*accessLogSampler).keep
 //@   property C39
 //@   ensures [fullrate] real(s.rate) >= real(1) ==> result
+//@   pathvar k string
+//@   pathvar sum uint32
+//@   pathflag hashed
+//@   pathflag summed
+//@   at call (*accessLogSampler).key setflag k result
+//@   at call hash.Hash32.Write assert [hashonce] !hashed && arg0 == h
+//@   at call hash.Hash32.Write assert [keyedonly] len(arg1) == len(k) && (forall i int :: 0 <= i && i < len(k) ==> arg1[i] == k[i])
+//@   at call hash.Hash32.Write mark hashed
+//@   at call hash.Hash32.Sum32 assert [samehash] hashed && !summed && arg0 == h
+//@   at call hash.Hash32.Sum32 setflag sum result
+//@   at call hash.Hash32.Sum32 mark summed
+//@   ensures [local_decidedbykey] real(s.rate) < real(1) && !old(has(record, "status") && record["status"] == iface("error")) ==> summed && result == (sum <= s.threshold)
 //@   ensures [errorskept] old(has(record, "status") && record["status"] == iface("error")) ==> result
 //@   ensures [ratestamped] result && real(s.rate) < real(1) && !old(has(record, "status") && record["status"] == iface("error")) ==> has(record, "sample_rate") && record["sample_rate"] == iface(s.rate)
 //@   ensures [local_dropped_ret3] !result && (forall k string :: has(record, k) == old(has(record, k)) && record[k] == old(record[k]))
